@@ -117,9 +117,12 @@ def run(ctx):
     # 2. behaviour generator + replay
     nrand = prof["rand"][0 if ctx.quick() else 1]
     g = ctx.tlc("XPathGen", "XPathGen.cfg", workers=12, timeout=3000, heap="12g",
-                consts={"Fams": set_lit(fams + [100]), "NRand": nrand, "RandKind": '"%s"' % prof["rand_kind"]},
-                extra=["-seed", str(ctx.seed)])
-    vecs = sorted(os.path.join(g["dir"], f) for f in os.listdir(g["dir"]) if re.match(r"vec_\d+\.ndjson$", f))
+                consts={"Fams": set_lit(fams), "NRand": 0, "RandKind": '"%s"' % prof["rand_kind"]})
+    # TLC-sampled deeper ASTs: one worker, so that VERIF_SEED reproduces the sample
+    g2 = ctx.tlc("XPathGen", "XPathGen.cfg", workers=1, timeout=3000, heap="6g",
+                 consts={"Fams": "{100}", "NRand": nrand, "RandKind": '"%s"' % prof["rand_kind"], "NChunks": 1},
+                 extra=["-seed", str(ctx.seed)])
+    vecs = sorted(os.path.join(d["dir"], f) for d in (g, g2) for f in os.listdir(d["dir"]) if re.match(r"vec_\d+_\d+\.ndjson$", f))
     if not vecs:
         raise Infra("generator produced no vectors")
     res, trace = ctx.path("res.ndjson"), ctx.path("trace.ndjson")
